@@ -22,7 +22,7 @@ CONSTS = [0, 1, -1, 2, -3, 5, 0.5, -0.25, 2.0, 4]
 
 
 def floors(tier):
-    return {'distinct_nontrivial': 8000 if tier == 'quick' else 300000, 'objects_evaluated_structurally': 20000,
+    return {'distinct_nontrivial': 25000 if tier == 'quick' else 300000, 'objects_evaluated_structurally': 20000,
             'objects_evaluated_via_sympy': 2000, 'zero_tests_compared': 20000, 'reference_zero_functions_seen': 500,
             'equality_pairs_compared': 5000, 'equal_pairs_seen': 200, 'operand_snapshots_verified': 20000,
             'op_add': 3000, 'op_sub': 3000, 'op_mul': 3000, 'op_div': 2000, 'op_neg': 500, 'op_pow': 800, 'op_inv': 300,
@@ -31,7 +31,7 @@ def floors(tier):
 
 def plan(tier, seed):
     n = 16 if tier == 'quick' else 64
-    per = 1300 if tier == 'quick' else 16000
+    per = 5000 if tier == 'quick' else 16000
     return [{'trees': per, 'salt': i} for i in range(n)]
 
 
@@ -131,8 +131,10 @@ def eval_sympy(obj, env):
     import sympy
     e = obj.tosympy() if hasattr(obj, 'tosympy') else sympy.sympify(obj)
     sub = {sympy.Symbol(k): sympy.Rational(v.numerator, v.denominator) for k, v in env.items()}
-    val = sympy.sympify(e).subs(sub)
-    val = sympy.nsimplify(val, rational=True) if val.is_Float else val
+    e = sympy.sympify(e)
+    # float constants are dyadic: make them exact rationals before substituting, so that the evaluation is exact
+    e = e.replace(lambda t: t.is_Float, lambda t: sympy.Rational(float(t)))
+    val = sympy.nsimplify(e.subs(sub), rational=True) if e.has(sympy.Float) else e.subs(sub)
     if val in (sympy.zoo, sympy.nan, sympy.oo, -sympy.oo):
         return None
     return Fr(int(val.p), int(val.q)) if val.is_Rational else Fr(float(val)).limit_denominator(10 ** 12)
@@ -141,7 +143,7 @@ def eval_sympy(obj, env):
 def structure(obj):
     from kingdon.polynomial import Polynomial, RationalPolynomial
     if isinstance(obj, RationalPolynomial):
-        return ['RP', repr(obj.numer.args)[:160], repr(obj.denom.args)[:160]]
+        return ['RP', repr(getattr(obj.numer, 'args', obj.numer))[:160], repr(getattr(obj.denom, 'args', obj.denom))[:160]]
     if isinstance(obj, Polynomial):
         return ['P', repr(obj.args)[:200]]
     return [type(obj).__name__, repr(obj)[:80]]
@@ -150,7 +152,7 @@ def structure(obj):
 def deep_snapshot(obj):
     from kingdon.polynomial import Polynomial, RationalPolynomial
     if isinstance(obj, RationalPolynomial):
-        return ('RP', repr(obj.numer.args), repr(obj.denom.args))
+        return ('RP', repr(getattr(obj.numer, 'args', obj.numer)), repr(getattr(obj.denom, 'args', obj.denom)))
     if isinstance(obj, Polynomial):
         return ('P', repr(obj.args))
     return ('N', repr(obj))
